@@ -1,12 +1,23 @@
 ----------------------------- MODULE CrashTrace -----------------------------
 (***************************************************************************)
 (* Monitor for crash-point observations of the real node (C13).  Each line *)
-(* is one injected crash: [kind, k, effects] where effects is the set of   *)
-(* effects of the interrupted step found durable after recovery (computed  *)
-(* by the harness by comparing the recovered database, key space by key    *)
-(* space, with the pre- and post-state), and inv the list of violated      *)
-(* recovery invariants.  The observation must be a state the one-batch     *)
-(* shape of Crash.tla can recover to: no effect or all effects.            *)
+(* is one injected crash:                                                  *)
+(*   kind     step kind (block, delete, delete+temp, restore, genesis,     *)
+(*            tiebreak, tiebreak-bad)                                      *)
+(*   model    crash model of Crash.tla (powerloss / processdeath)          *)
+(*   k, n     crash at file-system operation k of the n the step performs  *)
+(*   stages   number of atomic sub-steps the statement sees in the step     *)
+(*            (1; 2 for a tie break: removal of the tip, then addition)    *)
+(*   state    index 0..stages of the clean run's state (0 = before the     *)
+(*            step, stages = after it) whose database equals the one found *)
+(*            after the restart, -1 if it equals none of them              *)
+(*   effects  key spaces the step changes, durable: those of them found in *)
+(*            their final state (both computed by the harness on the       *)
+(*            projection that ignores data of finalized heights)           *)
+(*   inv      violated recovery invariants                                 *)
+(* The observation must be a state the one-batch-per-stage shape of        *)
+(* Crash.tla can recover to (Crash!Admissible on the numbered stages): a   *)
+(* prefix of the stages, never a part of one.                              *)
 (***************************************************************************)
 EXTENDS Integers, Sequences, FiniteSets, TLC, Json
 
@@ -19,8 +30,11 @@ TInit == l = 1
 Check(ok, tag, detail) == IF ok THEN TRUE ELSE PrintT(<<"MISMATCH", l, tag, detail>>)
 TNext ==
   /\ l <= Len(TraceLog)
-  /\ Check(ToSet(Ev.durable) = {} \/ ToSet(Ev.durable) = ToSet(Ev.effects), "partial-step", ToJson(Ev.durable))
+  /\ Check(Ev.model \in {"powerloss", "processdeath"} /\ Ev.stages >= 1, "recovery-invariant", "malformed record")
   /\ Check(Len(Ev.inv) = 0, "recovery-invariant", ToJson(Ev.inv))
+  \* (a record with a violated invariant is reported under that invariant's key only)
+  /\ Check(Len(Ev.inv) > 0 \/ Ev.state \in 0..Ev.stages, "partial-step", ToJson(Ev.durable))
+  /\ Check(Len(Ev.inv) > 0 \/ Ev.stages > 1 \/ ToSet(Ev.durable) = {} \/ ToSet(Ev.durable) = ToSet(Ev.effects), "partial-step", ToJson(Ev.durable))
   /\ l' = l + 1
 TSpec == TInit /\ [][TNext]_l
 =============================================================================
